@@ -1203,6 +1203,13 @@ class CompositeEnvelope:
         # Make sure the order of the states in tensoring is correct
         self.reorder(*states)
 
+        # Reordering may have combined the states into a new product state
+        ps = [
+            p
+            for p in self.states
+            if all(any(s is so for so in p.state_objs) for s in states)
+        ][0]
+
         outcome = ps.measure_POVM(operators, *states, destructive=destructive)
         return outcome
 
@@ -1283,6 +1290,13 @@ class CompositeEnvelope:
 
         # Make sure the order of the states in tensoring is correct
         self.reorder(*states)
+
+        # Reordering may have combined the states into a new product state
+        ps = [
+            p
+            for p in self.states
+            if all(any(s is so for so in p.state_objs) for s in states)
+        ][0]
 
         ps.apply_kraus(operators, *states)
 
